@@ -30,6 +30,7 @@ class Entropy:
 
     def __init__(self, first: int) -> None:
         self.d = first
+        self.first = first
         self.forks = 0
         self.log: list = []
         self.phase = "import"
@@ -200,7 +201,9 @@ def op_fork(o: dict) -> dict:
             code = 0
             try:
                 os.close(r)
-                ent.d = ent.d + 1_000_000_000 * (ent.forks * 8 + k + 1)
+                # a range of draw numbers no other process of the history uses: the epoch's first draw number is unique
+                # per epoch (sim.py advances it by at least one), parents stay below 2**16
+                ent.d = (((ent.first * 16 + ent.forks % 16) * 4 + k % 4 + 1) << 16) + 1
                 global FORK_TAG
                 FORK_TAG = f"-w{k}"  # concurrent processes build in their own folders (sharing one is the user's race, not SPSDK's)
                 arts = []
@@ -263,7 +266,13 @@ def op_mbi_config(o: dict) -> dict:
         "outputImageEncryptionKeyFile": "24e517d4ac417737235b6efc9afced8224e517d4ac417737235b6efc9afced82",
     }
     cls = get_mbi_class(cfg)
-    obj = cls()
+    if o.get("reuse_object"):
+        # a batch build keeps one image object and loads one configuration after the other into it
+        if "mbi_obj" not in SHARED:
+            SHARED["mbi_obj"] = cls()
+        obj = SHARED["mbi_obj"]
+    else:
+        obj = cls()
     obj.load_from_config(cfg, search_paths=[mbi_dir])
     out = {"kind": "mbi", "slots": {"ctr_init_vector": obj.ctr_init_vector.hex()}, "explicit": []}
     if o.get("export"):
@@ -312,6 +321,27 @@ def op_iee(o: dict) -> dict:
         explicit.append("key1")
     kb = IeeKeyBlob(attr, start_addr=0x3000_1000, end_addr=0x3000_8000, **kw)
     return {"kind": "iee", "slots": {"key1": bytes(kb.key1).hex(), "key2": bytes(kb.key2).hex()}, "explicit": explicit, "pair": ["key1", "key2"]}
+
+
+def op_iee_config(o: dict) -> dict:
+    """IEE image through the configuration interface with key1 / key2 left empty (SPSDK chooses them)."""
+    from spsdk.utils.crypto.iee import IeeNxp
+
+    td = os.path.join(WORKDIR, "iee" + FORK_TAG)
+    os.makedirs(td, exist_ok=True)
+    with open(os.path.join(td, "app.bin"), "wb") as f:
+        f.write(bytes(range(256)) * 16)
+    explicit = []
+    kb = {"region_lock": False, "aes_mode": "AesCTRWAddress" if o.get("ctr") else "AesXTS", "key_size": "CTR128XTS256", "page_offset": 0, "key1": "", "key2": "", "start_address": "0x30001000", "end_address": "0x30008000"}
+    if o.get("variant") == "explicit_key1":
+        kb["key1"] = _explicit(o.get("x", 0) + 600, 16).hex()
+        explicit.append("key1")
+    cfg = {"family": "rt117x", "output_folder": os.path.join(td, "out"), "keyblob_address": "0x30000000", "data_blobs": [{"data": "app.bin", "address": "0x30001000"}], "key_blobs": [kb]}
+    iee = IeeNxp.load_from_config(cfg, config_dir=td, search_paths=[td])
+    if o.get("export"):
+        iee.export_image()
+    blob = iee[0]
+    return {"kind": "iee", "slots": {"key1": bytes(blob.key1).hex(), "key2": bytes(blob.key2).hex()}, "explicit": explicit, "pair": ["key1", "key2"]}
 
 
 def op_bee(o: dict) -> dict:
@@ -415,7 +445,7 @@ FORK_TAG = ""
 SHARED: dict = {}
 ENT = None
 
-OPS = {"sb2": op_sb2, "sb2_config": op_sb2_config, "fork": op_fork, "mbi_class": op_mbi_class, "mbi_config": op_mbi_config, "otfad": op_otfad, "iee": op_iee, "bee": op_bee, "hab": op_hab, "hab_rt": op_hab_rt, "bee_config": op_bee_config}
+OPS = {"sb2": op_sb2, "sb2_config": op_sb2_config, "fork": op_fork, "mbi_class": op_mbi_class, "mbi_config": op_mbi_config, "otfad": op_otfad, "iee": op_iee, "bee": op_bee, "hab": op_hab, "hab_rt": op_hab_rt, "bee_config": op_bee_config, "iee_config": op_iee_config}
 
 
 def run_epoch(spec: dict) -> dict:
